@@ -20,8 +20,23 @@ theorem largest_intCast (a b : Int) : largest (a : Rat) (b : Rat) = ((max a b : 
 theorem largest_pos {w h : Rat} (hw : 0 < w) (hh : 0 < h) : 0 < largest w h := by
   unfold largest; split <;> assumption
 
+/-- the generated export expression is the focal divided by the largest side -/
+theorem exportFocal_def (f w h : Rat) : exportFocal f w h = f / largest w h := by
+  simp [exportFocal, Gen.OsfmCamera.exportFocal]
+
+/-- the generated import expression is the focal multiplied by the largest side -/
+theorem importFocal_def (focal : Rat) (width height : Int) : importFocal focal width height = focal * largest (width : Rat) (height : Rat) := by
+  simp [importFocal, Gen.OsfmCamera.importParams]
+
+theorem hasK1_def (t : CamType) : hasK1 t = (t == .simpleRadial || t == .radial) := by
+  cases t <;> decide
+
+theorem hasK2_def (t : CamType) : hasK2 t = (t == .radial) := by
+  cases t <;> decide
+
 theorem exportFocal_mul_largest (f : Rat) {w h : Rat} (hw : 0 < w) (hh : 0 < h) :
     exportFocal f w h * largest w h = f := by
+  rw [exportFocal_def]
   have hp := largest_pos hw hh
   have hne : largest w h ≠ 0 := by
     intro e; rw [e] at hp; exact absurd hp (Rat.lt_irrefl)
@@ -273,8 +288,7 @@ theorem importPoints_exportPoints {P : Type} (pts : List P) : importPoints (expo
 
 theorem importFocal_exportFocal (f : Rat) {W H : Int} (hW : 0 < W) (hH : 0 < H) :
     importFocal (exportFocal f (W : Rat) (H : Rat)) W H = f := by
-  unfold importFocal
-  rw [← largest_intCast]
+  rw [importFocal_def]
   exact exportFocal_mul_largest f (Rat.intCast_pos.2 hW) (Rat.intCast_pos.2 hH)
 
 theorem loopCamera_eq (c : Camera) (W H : Int) (ht : c.type ≠ .other) (hw : c.w = (W : Rat)) (hh : c.h = (H : Rat))
